@@ -428,7 +428,7 @@ fn build_memory(case: &Case, l: &Layout, c: &mut Counters) -> Mem {
                 let slot = slot.min(l.slots.len() - 1);
                 let a = l.addrs[slot];
                 if unit_fully_mapped(l, a) {
-                    restored.insert(a, width.clamp(1, 8));
+                    restored.insert(a, width.clamp(1, 32));
                 }
             }
             let decoy_unit = |len: usize| -> Vec<u8> {
@@ -525,6 +525,12 @@ fn initial_state(case: &Case, l: &Layout, seed: u64, extra: &BTreeMap<String, us
         } else if rng.chance(1, 6) {
             // small loop counters terminate loops
             Val::from_u64(rng.below(6), b)
+        } else if b == 64 && rng.chance(1, 8) {
+            // a small counter in the low half only (what a narrower view of the register sees
+            // differs from the register)
+            Val::from_u64((rng.range(1, 3) << 32) | rng.below(3), b)
+        } else if b == 32 && rng.chance(1, 10) {
+            Val::from_u64((rng.range(1, 3) << 16) | rng.below(3), b)
         } else {
             Val::from_u64(rng.corner64(), b)
         };
@@ -685,7 +691,10 @@ fn run_reference(
         };
         units_run += 1;
         // what the machine does with a conditional branch here, from the state before it
-        let machine = crate::branchoracle::expect(case.arch, &l.units[&pc], pc, &st.scalars);
+        // (only the conditional branches the generator placed: a harvested unit the lifter
+        // turns into an intrinsic, e.g. jrcxz, is an opaque step on both sides)
+        let is_cond_slot = l.addrs.binary_search(&pc).ok().is_some_and(|i| matches!(l.slots[i], Slot::Cond { .. }));
+        let machine = if is_cond_slot { crate::branchoracle::expect(case.arch, &l.units[&pc], pc, &st.scalars) } else { None };
         let mut branched: Option<u64> = None;
         for g in &lift.graphs {
             let prog = RProgram { funcs: vec![g.clone()] };
@@ -1629,7 +1638,7 @@ pub fn generate(run_seed: u64, index: u64) -> Case {
     }
     if case.mem_impl == "layered" {
         for _ in 0..rng.range(0, 6) {
-            case.restore.push((rng.usize_below(n), *rng.pick(&[1usize, 2, 4, 8])));
+            case.restore.push((rng.usize_below(n), *rng.pick(&[1usize, 2, 4, 8, 16, 32])));
         }
     }
     if !fault_free {
